@@ -346,6 +346,20 @@ class Driver:
                   "fraction_of_optimum": 1.0 if s["num"] == s["den"] else s["num"] / float(s["den"])}
             if s["pf"]:
                 kw["pfba_factor"] = s["pf"] / 10.0
+            if s.get("pre") == "rebuilt":
+                # history (not judged): the cycle reaction leaves the model, the same analysis runs, the reaction comes back
+                cr = self.rx[s["cr"] - 1]
+                coef = cr.objective_coefficient
+                m.remove_reactions([cr])
+                try:
+                    flux_variability_analysis(m, **kw)
+                except Exception:
+                    pass
+                m.add_reactions([cr])
+                if coef:
+                    cr.objective_coefficient = coef
+                self.rx[s["cr"] - 1] = m.reactions.get_by_id(cr.id)
+                self.reordered = True
             try:
                 df = flux_variability_analysis(m, reaction_list=self.rlist(s), **kw)
             except Exception as e:
@@ -356,6 +370,11 @@ class Driver:
             from cobra.flux_analysis import find_blocked_reactions
             if {r.id for r in m.exchanges} != {r.id for r in m.reactions if r.boundary}:
                 raise C.Machinery("palette assumption broken: model.exchanges is not the set of boundary reactions")
+            if s.get("pre") == "failed":
+                try:
+                    find_blocked_reactions(m, reaction_list=[self.rids[0], "no_such_reaction"], open_exchanges=True, processes=1)
+                except Exception:       # KeyError: the rejected call is the history, not what is judged
+                    pass
             try:
                 ids = find_blocked_reactions(m, reaction_list=self.rlist(s), open_exchanges=bool(s["open"]), processes=1)
             except Exception as e:
@@ -443,7 +462,8 @@ class Driver:
 
     def rlist(self, s):
         if s["by"] == "none":
-            return None
+            # "all reactions" is the model's own order -- unless a history step has moved a reaction to the end
+            return list(self.rx) if getattr(self, "reordered", False) else None
         out = []
         for j, k in enumerate(s["rl"]):
             asobj = s["by"] == "obj" or (s["by"] == "mixed" and j % 2 == 0)
